@@ -45,16 +45,38 @@ func genCase(t *rapid.T) Case {
 	if rapid.IntRange(0, 9).Draw(t, "wide") == 0 {
 		o.MaxWidth = 130
 	}
+	o.StructParams = true
 	p := mpcl.Draw(t, o)
 	vec := mpcl.DrawInputs(t, p, 2)
 	in := vec[rapid.IntRange(0, len(vec)-1).Draw(t, "vec")]
-	cs := Case{Prog: p, X: []string{in[0]}, Y: []string{in[1]},
+	cs := Case{Prog: p, X: memberStrings(p, 0, in[0]), Y: memberStrings(p, 1, in[1]),
 		Seed: rapid.Uint64().Draw(t, "seed")}
 	n := rapid.IntRange(0, 3).Draw(t, "nfrags")
 	for i := 0; i < n; i++ {
 		cs.Frags = append(cs.Frags, rapid.SampledFrom([]int{0, 1, 3, 16, 17, 4095}).Draw(t, "frag"))
 	}
 	return cs
+}
+
+// memberStrings turns the packed value of main's parameter i into the input
+// flag the parties give: one string for a scalar, one string per field for a
+// struct parameter (fields in declaration order).
+func memberStrings(p *mpcl.Prog, i int, packed string) []string {
+	T := p.Main().Params[i].T
+	if T.K != mpcl.KStruct {
+		return []string{packed}
+	}
+	v, _ := new(big.Int).SetString(packed, 0)
+	var res []string
+	ofs := 0
+	for _, f := range p.Struct(T.S).Fields {
+		n := p.Bits(f.T)
+		m := new(big.Int).Rsh(v, uint(ofs))
+		m.And(m, new(big.Int).Sub(new(big.Int).Lsh(big.NewInt(1), uint(n)), big.NewInt(1)))
+		res = append(res, hexOf(m))
+		ofs += n
+	}
+	return res
 }
 
 type ioSig struct {
